@@ -21,7 +21,10 @@ fn norm(msg: &str) -> String {
             out.push(c);
         }
     }
-    out.chars().take(90).collect()
+    // quoted values (paths, characters) depend on which entry a hash map happens to hand out first:
+    // the key keeps the text up to the first quote only
+    let cut = out.find(|c| c == '\'' || c == '`' || c == '"').unwrap_or(out.len());
+    out[..cut].chars().take(90).collect()
 }
 
 pub fn run_c13(cfg: &RunCfg, trace: bool) -> RunOut {
